@@ -3,7 +3,7 @@
 \* every rule model) for replay against the real executor: one extension,
 \* caches {none, map, lru1, lru2}, 7 request classes (incl. "invalid by another rule").  No VIEW: the order of
 \* cache operations (glog) distinguishes behaviours.  Needs -workers 1.
-\* Measured: 19 304 distinct / 33 576 generated states, 1 216 distinct behaviours printed, 4 s (1 worker).
+\* Measured: 1 488 distinct behaviours printed, about 5 s (1 worker).
 SPECIFICATION MCSpec
 CONSTANTS
   Reqs = {1, 2}
